@@ -48,6 +48,7 @@ LEVEL = {
 LEVEL["decided"] += " (R02.8) reduce, sum, all, any, min, max, sorted, nlargest, nsmallest, list, tuple, set as finite tables by abstract evaluation (874 cells: every truth pattern, every ranking with ties of up to 3 items, with / without key, default, initial, start) against the stdlib function executed on the same symbols; (R02.9) no handler of an aggregation can intercept an exception raised by user code (C06's census, shared)."
 LEVEL["decided"] += " (R02.6) every raise of the empty-input error has the builtin's class; (R02.10) no __aexit__ of the library returns a truthy value it did not derive from the exception."
 LEVEL["decided"] += ' (R02.11) nlargest / nsmallest take their first n items through a borrowed view that cannot close the source (R07.4, shared).'
+LEVEL["decided"] += " (R02.12) the user's key is never handed to list.sort / sorted / min / max of the standard library (R03.14, shared)."
 
 AGGREGATIONS = ["builtins.all", "builtins.any", "builtins.sum", "builtins.min", "builtins.max", "builtins._min_max",
                 "builtins.list", "builtins.tuple", "builtins.set", "builtins.dict", "builtins.sorted",
